@@ -238,6 +238,7 @@ def parseTest : Nat → List Tok → PR Expr
           | none => none)
        | _ => none)
     | res => res
+termination_by structural f => f
 
 /-- `LambdaDef` after the keyword: `ParameterList? ":" Test` -/
 def parseLambda : Nat → List Tok → PR Expr
@@ -251,6 +252,7 @@ def parseLambda : Nat → List Tok → PR Expr
          | none => none)
       else none
     | _ => none
+termination_by structural f => f
 
 /-- `ParameterList<UntypedParameter, StarUntypedParameter, StarUntypedParameter>?` as a loop over
     comma-separated items.  `phase`: 0 = before `/`, 1 = after `/`, 2 = after `*`, 3 = after `**`.
@@ -301,6 +303,7 @@ def parseParams : Nat → List Tok → Params → Nat → PR Params
       | .op .colon :: r2 =>
         if bareStarOk ps' phase' then some (ps', .op .colon :: r2) else none
       | _ => none
+termination_by structural f => f
 
 /-- `NamedExpressionTest` -/
 def parseNamedTest : Nat → List Tok → PR Expr
@@ -310,6 +313,7 @@ def parseNamedTest : Nat → List Tok → PR Expr
      | some (v, r') => some (.namedExpr (.name n) v, r')
      | none => none)
   | f + 1, ts => parseTest f ts
+termination_by structural f => f
 
 /-- `TestOrStarNamedExpr` -/
 def parseStarOrNamed : Nat → List Tok → PR Expr
@@ -319,6 +323,7 @@ def parseStarOrNamed : Nat → List Tok → PR Expr
      | some (e, r') => some (.starred e, r')
      | none => none)
   | f + 1, ts => parseNamedTest f ts
+termination_by structural f => f
 
 /-- `TestOrStarExpr` -/
 def parseTestOrStar : Nat → List Tok → PR Expr
@@ -328,6 +333,7 @@ def parseTestOrStar : Nat → List Tok → PR Expr
      | some (e, r') => some (.starred e, r')
      | none => none)
   | f + 1, ts => parseTest f ts
+termination_by structural f => f
 
 /-- `OrTest<"all">` -/
 def parseOrTest : Nat → List Tok → PR Expr
@@ -339,6 +345,7 @@ def parseOrTest : Nat → List Tok → PR Expr
        | some (es, r') => some (.boolOp .or (e :: es), r')
        | none => none)
     | res => res
+termination_by structural f => f
 
 /-- the remaining operands of an `or` chain -/
 def parseOrRest : Nat → List Tok → PR (List Expr)
@@ -351,6 +358,7 @@ def parseOrRest : Nat → List Tok → PR (List Expr)
        | none => none)
     | some (e, r) => some ([e], r)
     | none => none
+termination_by structural f => f
 
 /-- `AndTest<"all">` -/
 def parseAndTest : Nat → List Tok → PR Expr
@@ -362,6 +370,7 @@ def parseAndTest : Nat → List Tok → PR Expr
        | some (es, r') => some (.boolOp .and (e :: es), r')
        | none => none)
     | res => res
+termination_by structural f => f
 
 def parseAndRest : Nat → List Tok → PR (List Expr)
   | 0, _ => none
@@ -373,6 +382,7 @@ def parseAndRest : Nat → List Tok → PR (List Expr)
        | none => none)
     | some (e, r) => some ([e], r)
     | none => none
+termination_by structural f => f
 
 /-- `NotTest<"all">` -/
 def parseNotTest : Nat → List Tok → PR Expr
@@ -382,6 +392,7 @@ def parseNotTest : Nat → List Tok → PR Expr
      | some (e, r') => some (.unaryOp .not e, r')
      | none => none)
   | f + 1, ts => parseCmp f ts
+termination_by structural f => f
 
 /-- `Comparison<"all">` -/
 def parseCmp : Nat → List Tok → PR Expr
@@ -396,6 +407,7 @@ def parseCmp : Nat → List Tok → PR Expr
           | none => none)
        | none => some (l, r))
     | none => none
+termination_by structural f => f
 
 /-- `(CompOp Expression)*` -/
 def parseCmpRest : Nat → List Tok → PR (List CmpOp × List Expr)
@@ -410,6 +422,7 @@ def parseCmpRest : Nat → List Tok → PR (List CmpOp × List Expr)
           | none => none)
        | none => none)
     | none => some (([], []), ts)
+termination_by structural f => f
 
 /-- `Expression`, `XorExpression`, `AndExpression`, `ShiftExpression`, `ArithmeticExpression`,
     `Term` for `lvl = 0 … 5`: an operand of the next level, then the left-associative loop -/
@@ -419,6 +432,7 @@ def parseBin : Nat → Nat → List Tok → PR Expr
     match (if lvl ≥ 5 then parseFactor f ts else parseBin (lvl + 1) f ts) with
     | some (l, r) => parseBinLoop lvl f l r
     | none => none
+termination_by structural _ f => f
 
 def parseBinLoop : Nat → Nat → Expr → List Tok → PR Expr
   | _, 0, _, _ => none
@@ -429,6 +443,7 @@ def parseBinLoop : Nat → Nat → Expr → List Tok → PR Expr
        | some (e, r') => parseBinLoop lvl f (.binOp acc o e) r'
        | none => none)
     | none => some (acc, ts)
+termination_by structural _ f => f
 
 /-- `Factor<"all">` -/
 def parseFactor : Nat → List Tok → PR Expr
@@ -440,6 +455,7 @@ def parseFactor : Nat → List Tok → PR Expr
        | some (e, r') => some (.unaryOp o e, r')
        | none => none)
     | none => parsePower f ts
+termination_by structural f => f
 
 /-- `Power<"all">` -/
 def parsePower : Nat → List Tok → PR Expr
@@ -451,6 +467,7 @@ def parsePower : Nat → List Tok → PR Expr
        | some (b, r') => some (.binOp e .pow b, r')
        | none => none)
     | res => res
+termination_by structural f => f
 
 /-- `AtomExpr<"all">` -/
 def parseAtomExpr : Nat → List Tok → PR Expr
@@ -460,6 +477,7 @@ def parseAtomExpr : Nat → List Tok → PR Expr
      | some (e, r') => some (.await e, r')
      | none => none)
   | f + 1, ts => parseAtomExpr2 f ts
+termination_by structural f => f
 
 /-- `AtomExpr2<"all">`: an atom followed by trailers -/
 def parseAtomExpr2 : Nat → List Tok → PR Expr
@@ -468,6 +486,7 @@ def parseAtomExpr2 : Nat → List Tok → PR Expr
     match parseAtom f ts with
     | some (a, r) => parseTrailers f a r
     | none => none
+termination_by structural f => f
 
 def parseTrailers : Nat → Expr → List Tok → PR Expr
   | 0, _, _ => none
@@ -482,6 +501,7 @@ def parseTrailers : Nat → Expr → List Tok → PR Expr
   | f + 1, acc, .op .dot :: .name n :: r => parseTrailers f (.attribute acc n) r
   | _ + 1, _, .op .dot :: _ => none
   | _ + 1, acc, ts => some (acc, ts)
+termination_by structural f => f
 
 /-- `ArgumentList ")"`: `Comma<FunctionArgument>` with the checks of `parse_args`; the arguments
     collected so far are `as` / `ks` (in order), `dstar` = a `**` argument has been seen.
@@ -528,6 +548,7 @@ def parseArgs : Nat → List Tok → List Expr → List Keyword → Bool → PR 
       | .op .comma :: r2 => parseArgs f r2 as' ks' dstar'
       | .op .rpar :: r2 => some ((as', ks'), r2)
       | _ => none
+termination_by structural f => f
 
 /-- `SubscriptList "]"` -/
 def parseSubscriptList : Nat → List Tok → PR Expr
@@ -541,6 +562,7 @@ def parseSubscriptList : Nat → List Tok → PR Expr
        | some (ss, r') => some (.tuple (s1 :: ss), r')
        | none => none)
     | _ => none
+termination_by structural f => f
 
 /-- the remaining `Subscript`s of a `TwoOrMore<Subscript, ","> ","? "]"` -/
 def parseSubscripts : Nat → List Tok → PR (List Expr)
@@ -554,6 +576,7 @@ def parseSubscripts : Nat → List Tok → PR (List Expr)
        | some (ss, r') => some (s :: ss, r')
        | none => none)
     | _ => none
+termination_by structural f => f
 
 /-- `Subscript` -/
 def parseSubscript : Nat → List Tok → PR Expr
@@ -565,6 +588,7 @@ def parseSubscript : Nat → List Tok → PR Expr
     match parseTest f ts with
     | some (e, .op .colon :: r) => parseSliceRest f (some e) (.op .colon :: r)
     | res => res
+termination_by structural f => f
 
 /-- `":" Test? SliceOp?` after the optional lower bound -/
 def parseSliceRest : Nat → Option Expr → List Tok → PR Expr
@@ -590,6 +614,7 @@ def parseSliceRest : Nat → Option Expr → List Tok → PR Expr
                 | none => none))
      | some (upper, r2) => some (.slice lower upper none, r2))
   | _ + 1, _, _ => none
+termination_by structural f => f
 
 /-- `Atom<"all">` -/
 def parseAtom : Nat → List Tok → PR Expr
@@ -684,6 +709,7 @@ def parseAtom : Nat → List Tok → PR Expr
           | none => none)
      | none => none)
   | _ + 1, _ => none
+termination_by structural f => f
 
 /-- after one element of a bracketed display: `("," TestOrStarNamedExpr)* ","? close`.
     Returns the further elements and whether a trailing comma was present; consumes `close`. -/
@@ -709,6 +735,7 @@ def parseElems : Nat → Op → List Tok → PR (List Expr × Bool)
         | none => none))
   | _ + 1, close, .op o :: r => if o = close then some (([], false), r) else none
   | _ + 1, _, _ => none
+termination_by structural f => f
 
 /-- after one `DictElement`: `("," DictElement)* ","? "}"` -/
 def parseDictRest : Nat → List Tok → PR (List DictItem)
@@ -733,6 +760,7 @@ def parseDictRest : Nat → List Tok → PR (List DictItem)
         | none => none)
      | _ => none)
   | _ + 1, _ => none
+termination_by structural f => f
 
 /-- `CompFor`: one or more `SingleForComprehension` -/
 def parseCompFor : Nat → List Tok → PR (List Comp)
@@ -760,6 +788,7 @@ def parseCompFor : Nat → List Tok → PR (List Comp)
             | none => none)
          | none => none)
       | _ => none
+termination_by structural f => f
 
 /-- `ComprehensionIf*` -/
 def parseCompIfs : Nat → List Tok → PR (List Expr)
@@ -772,6 +801,7 @@ def parseCompIfs : Nat → List Tok → PR (List Expr)
         | none => none)
      | none => none)
   | _ + 1, ts => some ([], ts)
+termination_by structural f => f
 
 /-- `ExpressionOrStarExpression` -/
 def parseExprOrStar : Nat → List Tok → PR Expr
@@ -781,6 +811,7 @@ def parseExprOrStar : Nat → List Tok → PR Expr
      | some (e, r') => some (.starred e, r')
      | none => none)
   | f + 1, ts => parseBin 0 f ts
+termination_by structural f => f
 
 /-- `ExpressionList` = `GenericList<ExpressionOrStarExpression>` in front of `in` -/
 def parseTargetList : Nat → List Tok → PR Expr
@@ -792,6 +823,7 @@ def parseTargetList : Nat → List Tok → PR Expr
        | some (es, r') => some (.tuple (e :: es), r')
        | none => none)
     | res => res
+termination_by structural f => f
 
 /-- after `elem ","` of a target list: more elements, or the trailing comma case -/
 def parseTargetRest : Nat → List Tok → PR (List Expr)
@@ -805,6 +837,7 @@ def parseTargetRest : Nat → List Tok → PR (List Expr)
        | none => none)
     | some (e, r) => some ([e], r)
     | none => none
+termination_by structural f => f
 
 /-- `TestList` = `GenericList<TestOrStarExpr>`; ends in front of `)` or at the end of input -/
 def parseTestList : Nat → List Tok → PR Expr
@@ -816,6 +849,7 @@ def parseTestList : Nat → List Tok → PR Expr
        | some (es, r') => some (.tuple (e :: es), r')
        | none => none)
     | res => res
+termination_by structural f => f
 
 def parseTestListRest : Nat → List Tok → PR (List Expr)
   | 0, _ => none
@@ -829,6 +863,7 @@ def parseTestListRest : Nat → List Tok → PR (List Expr)
        | none => none)
     | some (e, r) => some ([e], r)
     | none => none
+termination_by structural f => f
 
 /-- `(@L string @R)+ =>? parse_strings(s)`: all adjacent string tokens -/
 def parseStrings : Nat → List Tok → PR Expr
@@ -848,6 +883,7 @@ def parseStrings : Nat → List Tok → PR Expr
       match parseStringPieces f strs with
       | some pieces => some (.joinedStr (dedupPieces initialU pieces none), rest)
       | none => none
+termination_by structural f => f
 
 /-- every literal of an implicit concatenation turned into its pieces -/
 def parseStringPieces : Nat → List Tok → Option (List (List Nat ⊕ Expr))
@@ -859,6 +895,7 @@ def parseStringPieces : Nat → List Tok → Option (List (List Nat ⊕ Expr))
      | some (vs, []) => (parseStringPieces f r).map (vs.map exprToPiece ++ ·)
      | _ => none)
   | _ + 1, _ => none
+termination_by structural f => f
 
 /-- `parse_fstring(nested)`: `content` is the pending literal text (reversed).
     Returns the pieces and the unconsumed text (non-empty only when `nested > 0`). -/
@@ -893,6 +930,7 @@ def fstrBody : Nat → Bool → Nat → List Nat → List Nat → Option (List E
           | some (cs, r) => fstrBody f raw nested r (cs.reverse ++ content)
           | none => none))
     else fstrBody f raw nested rest (ch :: content)
+termination_by structural f => f
 
 /-- `parse_formatted_value(nested)` after the opening brace -/
 def fstrField : Nat → Bool → Nat → List Nat → Option (List Expr × List Nat)
@@ -925,6 +963,7 @@ def fstrField : Nat → Bool → Nat → List Nat → Option (List Expr × List 
               some ([.const (.str (exprText ++ [61]) false),
                      .const (.str st.trailing.reverse false),
                      .formattedValue value conv spec], r')
+termination_by structural f => f
 
 /-- `parse_spec(nested)`: stops in front of the closing `}` -/
 def fstrSpec : Nat → Bool → Nat → List Nat → List Nat → Option (List Expr × List Nat)
@@ -943,6 +982,7 @@ def fstrSpec : Nat → Bool → Nat → List Nat → List Nat → Option (List E
     else if ch = 125 then
       some ((if piece.isEmpty then [] else [.const (.str piece.reverse false)]), ch :: rest)
     else fstrSpec f raw nested rest (ch :: piece)
+termination_by structural f => f
 
 /-- `Top` in expression mode: a `TestList` and nothing after it -/
 def parseTop : Nat → List Tok → Option Expr
@@ -951,6 +991,7 @@ def parseTop : Nat → List Tok → Option Expr
     match parseTestList f ts with
     | some (e, []) => some e
     | _ => none
+termination_by structural f => f
 
 end
 
